@@ -297,6 +297,34 @@ pub fn gen(tier: &str, rng: &mut Rng, emit: &mut Emit) {
             }
         }
     }
+    // parent / private-resource / next-level references to nodes that start beyond 64 KiB: 280 maximal processor nodes
+    // (58 private resources each = 252 bytes) come first
+    for _ in 0..(if thorough { 6 } else { 1 }) {
+        let c = rand_ctor(rng);
+        let mut prev: Vec<u64> = vec![2];
+        let mut ops = vec![cache(rng, &[], &[1, 2])];
+        for _ in 0..280 {
+            ops.push(processor(rng, &prev, 58, vec![]));
+            prev.push(1);
+        }
+        // late nodes, then nodes referring to the late ones only
+        let base = prev.len();
+        ops.push(cache(rng, &[], &[3, 4]));
+        prev.push(2);
+        ops.push(processor(rng, &[], 0, vec![flag_builder(1)]));
+        prev.push(1);
+        let late: Vec<u64> = prev.iter().enumerate().map(|(i, k)| if i >= base { *k } else { 0 }).collect();
+        ops.push(cache(rng, &late, &[9, 1]));
+        prev.push(2);
+        for n in [1usize, 4] {
+            let mut p = processor(rng, &late, n, vec![]);
+            // force the parent to be the late processor node
+            if let Sx::L(v) = &mut p { v[1] = h(base + 1); }
+            ops.push(p);
+            prev.push(1);
+        }
+        emit.case(16, history(rng, c, ops));
+    }
     // all interleavings of the two node kinds for histories of length <= 4
     for seq in sequences(&[1, 2], 4) {
         let c = rand_ctor(rng);
